@@ -333,6 +333,19 @@ fn int_arg_filters(ctx: &Ctx, k: u32, ke: u32) {
                         );
                     }
                 }
+                // truncatewords to zero words: whatever the engine keeps for n = 0 (nothing, or one word as the
+                // reference implementation does), the answer must not depend on whether the text has a second word:
+                // a one-word text is cut exactly when the same text with ' y' appended is
+                if n == 0 && !s.is_empty() && !s.contains(' ') && !s.contains('\n') && !s.contains('\t') {
+                    let chain = if e.is_some() { "truncatewords: n, e" } else { "truncatewords: n" };
+                    let two = V::obj(&[("s", V::s(&format!("{s} y"))), ("n", V::Int(n)), ("e", V::s(&ell))]);
+                    if let (Outcome::Ok(a), Outcome::Ok(b)) = (ctx.render(chain, &data), ctx.render(chain, &two)) {
+                        let keeps_none = b == ds(&ell);
+                        if keeps_none && a != ds(&ell) {
+                            ctx.report.violation("C13|truncatewords|zero-words-depends-on-spaces", i, json!({"kind":"render","template":format!("{{{{ s | {chain} }}}}"),"data":data.to_json(),"partials":[],"actual":a}), format!("truncatewords: 0 of {:?} is the ellipsis alone, of {s:?} it is {a}", format!("{s} y")));
+                        }
+                    }
+                }
                 // truncatewords: exact only on single-space separated words and n >= 1
                 if n >= 1 && !s.contains("  ") && !s.contains('\n') && !s.contains('\t') {
                     let words: Vec<&str> = s.split(' ').collect();
